@@ -298,5 +298,7 @@ def mentioned_positions(muts):
             ps.add(int(re.match(r"nuc:[^0-9-]+(-?\d+)", m).group(1)))
         elif m.startswith("aa:") and "(" in m:
             for s in m[m.index("(") + 1:-1].split(";"):
-                ps.add(int(re.match(r"nuc:[^0-9-]+(-?\d+)", s).group(1)))
+                mm = re.match(r"nuc:[^0-9-]+(-?\d+)", s)
+                if mm:                      # an aa record with an empty (nuc:...) list mentions nothing
+                    ps.add(int(mm.group(1)))
     return ps
